@@ -108,7 +108,7 @@ def to_driver(ev):
     return "progress legal " + " ; ".join(out)
 
 
-def one_case(rng, ctx, with_registry, mode="prim", op_switch_p=0.05, join_shape=False):
+def one_case(rng, ctx, with_registry, mode="prim", op_switch_p=0.05, join_shape=False, interrupt_at=None):
     nobs = rng.choice([1, 1, 2, 3])
     prog = RecProgress(nobs)
     workers = rng.choice([1, 2, 3])
@@ -158,8 +158,10 @@ def one_case(rng, ctx, with_registry, mode="prim", op_switch_p=0.05, join_shape=
         info["spec"] = spec
         info["output"] = out
         info["failing"] = {str(k): v for k, v in failing.items()}
-    r = coop.run_controlled(thunk, seed, mode=mode, op_switch_p=op_switch_p)
-    info["mode"], info["op_switch_p"], info["join_shape"] = mode, op_switch_p, join_shape
+    # a KeyboardInterrupt delivered to the calling thread while it waits in queue.join is one more way for a run to fail:
+    # the calls in flight still end normally, so the whole statement applies
+    r = coop.run_controlled(thunk, seed, mode=mode, op_switch_p=op_switch_p, interrupt_at=interrupt_at)
+    info["mode"], info["op_switch_p"], info["join_shape"], info["interrupt_at"] = mode, op_switch_p, join_shape, interrupt_at
     return r, prog, plan, reg, info
 
 
@@ -230,16 +232,18 @@ def check_case(ctx, r, prog, plan, reg, info, lines, expect):
 
 def explore(ctx):
     rng = random.Random(ctx.seed * 48271 + 3)
-    n = 70 if ctx.tier == "quick" else 2500
+    n = 140 if ctx.tier == "quick" else 2500
     viol, dis = [], []
     lines, expect = [], []
-    st = {"runs": 0, "with_registry": 0, "failed_runs": 0, "composite": 0, "notifications": 0, "engine_blocks": 0}
+    st = {"runs": 0, "with_registry": 0, "failed_runs": 0, "composite": 0, "notifications": 0, "engine_blocks": 0, "interrupted": 0}
     samples = []
     distinct = set()
     for i in range(n):
         with_reg = rng.random() < 0.5
-        r, prog, plan, reg, info = one_case(rng, ctx, with_reg)
+        intr = rng.choice([None, None, None, None, 0, 1, 2, 4])
+        r, prog, plan, reg, info = one_case(rng, ctx, with_reg, interrupt_at=intr)
         st["runs"] += 1
+        st["interrupted"] += isinstance(r.exc, KeyboardInterrupt)
         st["with_registry"] += with_reg
         st["failed_runs"] += r.exc is not None
         st["composite"] += len(prog.obs) > 1
@@ -282,7 +286,7 @@ def explore(ctx):
     cov["distinct_nontrivial"] = len(distinct)
     cov["traces_validated_against_impl"] = st["engine_blocks"]
     cov["rule"] = ("generated plans with scopes (plain; and with registries of in-memory stores: sources, stored calls, dependent sources) x "
-                   "failing calls / store operations raising Exceptions x max_errors x workers x scheduler x controlled schedule x 1-3 observers "
+                   "failing calls / store operations raising Exceptions / KeyboardInterrupt in the calling thread while it waits in queue.join x max_errors x workers x scheduler x controlled schedule x 1-3 observers "
                    "(composite); distinct = distinct recorded sequences of observer #0")
     cov["samples"] = samples
     return {"violations": viol, "disagreements": dis, "coverage": cov}
@@ -294,7 +298,8 @@ def search(ctx, broken):
     found = []
     for i in range(900 if ctx.tier == "quick" else 6000):
         r, prog, plan, reg, info = one_case(rng, ctx, False, mode="opcode", op_switch_p=rng.choice([0.05, 0.2, 0.4]),
-                                            join_shape=rng.random() < 0.7)
+                                            join_shape=rng.random() < 0.7,
+                                            interrupt_at=rng.choice([None, None, 0, 1, 2, 3]))
         lines, expect = [], []
         v = check_case(ctx, r, prog, plan, reg, info, lines, expect)
         for x in v:
@@ -320,7 +325,8 @@ def replay(ctx, payload):
         plan, nodes, _ = plans.build(info["spec"], rec, failing)
         thunk = lambda: uberjob.run(plan, output=[nodes[i] for i in info["output"]], max_workers=info["workers"],
                                     scheduler=info["scheduler"], max_errors=info["max_errors"], progress=prog)
-        r = coop.run_controlled(thunk, info["seed"] + j, mode=info.get("mode", "prim"), op_switch_p=info.get("op_switch_p", 0.05))
+        r = coop.run_controlled(thunk, info["seed"] + j, mode=info.get("mode", "prim"), op_switch_p=info.get("op_switch_p", 0.05),
+                                interrupt_at=info.get("interrupt_at"))
         v = check_case(ctx, r, prog, plan, None, info, [], [])
         if v:
             return v[0]["what"] + (" (schedule seed +%d)" % j if j else "")
